@@ -148,6 +148,11 @@ func (v *buf[T]) channel(c int) signal.C[T] {
 	return cv
 }
 
+// NewViewOf allocates a buffer of an arbitrary element type T (used for function-local named types).
+func NewViewOf[T signal.SignalTypes](name string, a signal.Allocator) View {
+	return &buf[T]{ty: name, b: signal.Alloc[T](a)}
+}
+
 func (v *buf[T]) Ty() string    { return v.ty }
 func (v *buf[T]) Raw() any      { return v.b }
 func (v *buf[T]) Len() int      { return v.b.Len() }
